@@ -19,9 +19,47 @@ def prop(pid):
     return deco
 
 
+def trace_module_for(sc):
+    """The Trace_* module that decides a scenario of the given family."""
+    fam, kind = sc.get("fam"), sc.get("kind")
+    if fam == "stroke":
+        if kind in ("fill", "clip"):
+            return "Trace_Curve"
+        curved = sc.get("quantize") or any(o[0] in ("Q", "C", "A") for o in sc.get("ops", []))
+        if curved:
+            return "Trace_StrokeCurve"
+        return "Trace_Dash" if "dash" in sc.get("style", {}) and sc.get("width_class", "pos") == "pos" and _pos_width(sc) else "Trace_Stroke"
+    if fam == "views":
+        return "Trace_Convert" if kind == "convert" else "Trace_Views"
+    return {"cov": "Trace_Cov", "canvas": "Trace_Canvas", "routes": "Trace_Routes", "surface": "Trace_Surface", "shade": "Trace_Shade",
+            "contains": "Trace_Contains", "flatten": "Trace_Flatten", "builder": "Trace_Builder", "arc": "Trace_Builder",
+            "boundary": "Trace_Boundary", "curveedge": "Trace_CurveEdge", "selfcheck": "Trace_PixelSelf"}.get(fam)
+
+
+def _pos_width(sc):
+    w = sc.get("style", {}).get("width")
+    return isinstance(w, (int, float)) and w > 0
+
+
 def replay(pid, path):
-    out = run_harness(["replay", path])
-    print(out)
+    """Re-run one recorded scenario on the current /repo and let the family's Trace_* module decide it again.
+    Exit 1 (with the VIOLATION line) when it still fails, 0 when it is accepted now."""
+    d = json.load(open(path))
+    sc = d["scenario"] if isinstance(d, dict) and "scenario" in d else d
+    mod = trace_module_for(sc)
+    if mod is None:
+        print(run_harness(["replay", path]))
+        return 0
+    tp = execute(pid, "replay", [sc])
+    t = validate(pid, mod, tp, workers=2, timeout=900)
+    bad = [ln for ln in t.printed if ln.startswith("<<") and not ln.startswith('<<"NT"') and not ln.startswith('<<"SUM"')
+           and not ln.startswith('<<"SKIP"') and not ln.startswith('<<"INC"') and not ln.startswith('<<"OVF"')]
+    for ln in bad:
+        print(ln[:600])
+    if bad:
+        print("VIOLATION property=%s replay=%s" % (pid, path))
+        return 1
+    print("[%s] replay accepted by %s" % (pid, mod))
     return 0
 
 
